@@ -34,6 +34,9 @@ def strategy_(draw, tier):
             "ents": [dict(kind=draw(st.sampled_from(["file", "file", "tree", "tree", "link", "empty"])),
                           where=draw(st.sampled_from(["home", "home", "top_alt", "top_sticky"])),
                           old=draw(st.booleans()),
+                          # same base name as the first entry, trashed from another directory: the
+                          # payload is then stored under NAME_<i> (info name != base name of Path)
+                          dup=draw(st.integers(0, 3)) == 0,
                           name=draw(st.one_of(gen.names(simple=True), gen.names(simple=True),
                                               st.sampled_from(["x.trashinfo", "a.trashinfo.d", "..."]))))
                      for _ in range(n)],
@@ -58,9 +61,14 @@ def build(case):
         else:
             tdir = tw.top_trash("/vol", "sticky" if where == "top_sticky" else "alt")
             base, orig = "/vol", "/vol/w/v%d-%s" % (i, e["name"])
+        stored = None
+        if e.get("dup") and i > 0 and es and es[0]["tdir"] == tdir:
+            first = es[0]["orig"].rsplit("/", 1)
+            orig = first[0] + "/other dir %d/" % i + first[1]
+            stored = "%s_%d" % (first[1], i)
         es.append(tw.add(tdir, base, orig, "2001-01-01T00:00:00" if e["old"] else "2021-06-01T00:00:00",
                          kind=e["kind"], content=("payload %d " % i) * (4000 if case["big"] else 1),
-                         link_to="/nowhere"))
+                         link_to="/nowhere", **({"name": stored} if stored else {})))
     tw.nodes += [{"p": "/home/u/w", "t": "d"}, {"p": "/vol/w", "t": "d"}]
     return tw, es
 
